@@ -266,6 +266,11 @@ def determinism_selftest(module: str, run_fn, seeds, workers, wall=120, extra_ar
     skipped = 0
     for s in seeds:
         vals = {da.get(s), db.get(s), dc.get(s)}
+        if any(str(v).endswith("~u") for v in vals):
+            # z3 answered `unknown` in at least one execution of this seed: an external, history-dependent
+            # verdict (see sim/session.py result()); not a property of the simulator
+            skipped += 1
+            continue
         if any(str(v) in ("!inconclusive", "inconclusive") for v in vals):
             # the run hit its wall limit somewhere (exo has analyses that do not terminate on some
             # inputs, e.g. get_changing_scalars on an alias cycle): no digest to compare
@@ -273,7 +278,7 @@ def determinism_selftest(module: str, run_fn, seeds, workers, wall=120, extra_ar
             continue
         if len(vals) != 1 or any(v is None or str(v).startswith("!") for v in vals):
             mism.append({"seed": s, "a": da.get(s), "b": db.get(s), "fresh_hashseed_4242": dc.get(s)})
-    info = {"seeds": len(seeds), "mismatches": mism[:5], "n_mismatch": len(mism), "fresh_err": err, "skipped_inconclusive": skipped}
+    info = {"seeds": len(seeds), "mismatches": mism[:5], "n_mismatch": len(mism), "fresh_err": err, "skipped_inconclusive_or_solver_unknown": skipped}
     return (not mism), info
 
 
